@@ -38,7 +38,7 @@ type c19Case struct {
 
 var c19Mutating = []string{"AddFact", "RemFact", "AddRule", "RemRule", "EnableRule", "SetParents", "Clear", "EventAdd", "EventRem", "EventAddRule", "JSAddFact", "EventTrigger"}
 var c19Revealing = []string{"GetFact", "GetRule", "SearchFacts", "SearchRules", "ListRules", "Query", "StateSize", "GetParents", "EventSearch", "JSSearch", "EventPlain",
-	"SearchInherited", "ListRulesInherited", "SearchRulesInherited"}
+	"SearchInherited", "ListRulesInherited", "SearchRulesInherited", "RuleEnabled"}
 
 // c19ParentKey is the read key of the (always read-protected) parent of P.
 const c19ParentKey = "r1"
@@ -243,6 +243,13 @@ func c19Do(loc *core.Location, ctx *core.Context, x c19Op) (res string, err erro
 		if err == nil {
 			res = strings.Join(ps, ",")
 		}
+	case "RuleEnabled":
+		// (reveals the rule's "disabled" property fact)
+		var en bool
+		en, err = loc.RuleEnabled(ctx, "r1")
+		if err == nil {
+			res = fmt.Sprint(en)
+		}
 	}
 	return
 }
@@ -370,11 +377,9 @@ func runC19(c c19Case) *vlib.Outcome {
 		viaEvent := strings.HasPrefix(x.K, "Event")
 		viaJS := strings.HasPrefix(x.K, "JS")
 		needsRead := !mutating || viaEvent || x.K == "JSSearch"
-		if x.K == "GetParents" {
-			// the statement names the parent set only for writes;
-			// whether reading it needs the read key is not specified
-			needsRead = false
-		}
+		// (GetParents and RuleEnabled reveal the content of property
+		// facts - the parent set, a rule's disabled flag - and need
+		// the read key like every other read)
 		needsWrite := mutating
 		if viaJS && prot.disabled {
 			needsRead = true // every operation reports a disabled location
